@@ -48,10 +48,7 @@ def runOpsState (d : Impl.Rle.Dec) : List Impl.Rle.Op → Impl.Rle.Dec
   | [] => d
   | op :: ops => runOpsState (Impl.Rle.step d op).2 ops
 
-inductive EncOp
-  | put (v : Nat)
-  | rep (v n : Nat)
-  | flush
+open Carquet.Impl.Rle (EncOp runEncOps)
 
 /-- `p<v>`, `r<v>x<n>`, `f` -/
 def parseEncOp (s : String) : Option EncOp :=
@@ -63,12 +60,6 @@ def parseEncOp (s : String) : Option EncOp :=
     | (v, 'x' :: r2) => (natOfChars r2).map (.rep v)
     | _ => none
   | _ => none
-
-def runEncOps (e : Impl.Rle.Enc) : List EncOp → Impl.Rle.Enc
-  | [] => e
-  | .put v :: ops => runEncOps (Impl.Rle.put e v) ops
-  | .rep v n :: ops => runEncOps (Impl.Rle.putRepeat e v n) ops
-  | .flush :: ops => runEncOps (Impl.Rle.flush e) ops
 
 /-- the values of a history that ends with its only flush -/
 def encOpsValues : List EncOp → Option (List Nat)
@@ -91,6 +82,19 @@ def rleRunsTotal (w v : Nat) : Nat → List UInt8 → Option Nat
         else if rest.length < Spec.RleHybrid.valueBytes w then none
         else if Spec.RleHybrid.leValue (rest.take (Spec.RleHybrid.valueBytes w)) ≠ v then none
         else (rleRunsTotal w v f (rest.drop (Spec.RleHybrid.valueBytes w))).map (· + h / 2)
+
+/-- everything the Spec decoder can read from `out`: the longest `n ≤ bound` it delivers (`none` if not even 0) -/
+def specAll (w : Nat) (out : List UInt8) : Nat → Option (List Nat)
+  | 0 => match Spec.RleHybrid.decode w out 0 with | .ok d => some d | .error _ => none
+  | n + 1 => match Spec.RleHybrid.decode w out (n + 1) with | .ok d => some d | .error _ => specAll w out n
+
+/-- is `D` the values of the history in order, with k < 8 zeros at each flush (search over the k's)? -/
+def matchPads : List EncOp → List Nat → Bool
+  | [], D => D.isEmpty
+  | .put v :: ops, D => (match D with | d :: D' => d == v && matchPads ops D' | [] => false)
+  | .rep v n :: ops, D => D.take n == List.replicate n v && matchPads ops (D.drop n)
+  | .flush :: ops, D =>
+    (List.range 8).any (fun k => k ≤ D.length && (D.take k).all (· == 0) && matchPads ops (D.drop k))
 
 def specOk (r : Except Spec.RleHybrid.Err (List Nat)) (vals : List Nat) : Bool :=
   match r with
@@ -201,7 +205,15 @@ def handle (l : Line) : Option Verdict :=
       let p := match encOpsValues ops with
         | some vals => specOk (Spec.RleHybrid.decode w out vals.length) vals
         | none => true
-      verdict [("impl_history", (runEncOps (Impl.Rle.Enc.init w) ops).out == out)] [("spec_decodes", p)]
+      -- histories with inner flushes (property evaluated when the history ends with a flush): everything the Spec
+      -- decoder reads from the bytes is the values put, in order, with fewer than 8 zeros after each flush point
+      let endsFlushed := ops.getLast? == some .flush
+      let all := if endsFlushed then specAll w out ((Impl.Rle.histValues ops).length + 7 * (ops.filter (· == .flush)).length + 1) else none
+      let pm := !endsFlushed || (match all with | some D => matchPads ops D | none => false)
+      -- tie of the padding counts the model predicts (`flushPads`) to what the real bytes hold
+      let dm := !endsFlushed || all == some (Impl.Rle.denoteWith (Impl.Rle.flushPads (Impl.Rle.Enc.init w) ops) ops)
+      verdict [("impl_history", (runEncOps (Impl.Rle.Enc.init w) ops).out == out), ("impl_history_denotation", dm)]
+              [("spec_decodes", p), ("spec_decodes_history_with_flush_padding", pm)]
     | _, _, _ => .bad "rle_encops args"
   | "rle_bigrun" => some <|
     match l.inNat "w", l.inNat "v", l.inNat "n", l.outHex "out" with
